@@ -242,10 +242,10 @@ def clientVerbCore (cs : ClientSt) (ws : List String) : Option (ClientSt × Stri
         if k == 0 then (cs, "bad-op") else
         -- rpc_service.rs: `from_slice::<Vec<Response<_>>>`; any failure is `Error::ParseError`
         (match elements t with
-         | none => ({ cs with httpNext := cs.httpNext + 1 }, "E:parse")
+         | none => ({ cs with httpNext := cs.httpNext + k }, "E:parse")
          | some es =>
-           if (es.filterMap decodeResponse).length != es.length then ({ cs with httpNext := cs.httpNext + 1 }, "E:parse")
-           else ({ cs with httpNext := cs.httpNext + 1 }, batchResRepr (httpBatch cs.httpNext k (es.filterMap decodeResponse))))
+           if (es.filterMap decodeResponse).length != es.length then ({ cs with httpNext := cs.httpNext + k }, "E:parse")
+           else ({ cs with httpNext := cs.httpNext + k }, batchResRepr (httpBatch cs.httpNext k (es.filterMap decodeResponse))))
       | _, _ => (cs, "bad-op"))
   | ["hc", "tbatch", ty, n, h] =>
     some (if !cs.httpActive then (cs, "bad-op") else
@@ -253,10 +253,10 @@ def clientVerbCore (cs : ClientSt) (ws : List String) : Option (ClientSt × Stri
       | some δ, some k, some t =>
         if k == 0 then (cs, "bad-op") else
         (match elements t with
-         | none => ({ cs with httpNext := cs.httpNext + 1 }, "E:parse")
+         | none => ({ cs with httpNext := cs.httpNext + k }, "E:parse")
          | some es =>
-           if (es.filterMap decodeResponse).length != es.length then ({ cs with httpNext := cs.httpNext + 1 }, "E:parse")
-           else ({ cs with httpNext := cs.httpNext + 1 }, tresRepr false (httpBatchT δ cs.httpNext k (es.filterMap decodeResponse))))
+           if (es.filterMap decodeResponse).length != es.length then ({ cs with httpNext := cs.httpNext + k }, "E:parse")
+           else ({ cs with httpNext := cs.httpNext + k }, tresRepr false (httpBatchT δ cs.httpNext k (es.filterMap decodeResponse))))
       | _, _, _ => (cs, "bad-op"))
   -- client.rs:413-428: a notification takes no id; subscriptions are not implemented over HTTP
   | ["hc", "notify"] => some (if !cs.httpActive then (cs, "bad-op") else (cs, "-"))
@@ -360,6 +360,8 @@ def clientAlias : List String → List String
   | ["hc", "tbatchx", ty, n, h] => ["hc", "tbatch", ty, n, h]
   | ["hc", "callx", h] => ["hc", "call", h]
   | ["cl", "deliverx", h] => ["cl", "deliver", h]
+  | ["cl", "deliver", h, _] => ["cl", "deliver", h]      -- `for=<op>`: whom the mock server answers (oracle only)
+  | ["cl", "deliverx", h, _] => ["cl", "deliver", h]
   | ws => ws
 
 def clientVerb (cs : ClientSt) (ws : List String) : Option (ClientSt × String) := clientVerbCore cs (clientAlias ws)
